@@ -4,6 +4,7 @@ import (
 	"fmt"
 	"sort"
 	"strings"
+	"testing/synctest"
 	"time"
 
 	"kvassverif/core"
@@ -41,6 +42,7 @@ type opRec struct {
 
 type nodeCfg struct {
 	updW, scrapeW, restartW, advW int
+	overlapW                     int // a scrape in flight while an update is applied
 	minOps, maxOps               int
 	failW                        int // weight of failing scrapes (vs 10 success)
 }
@@ -107,7 +109,71 @@ func modelRunBubble(tp *core.Tape, e *core.Env, cfg nodeCfg) (ops []opRec) {
 
 	nOps := tp.Range("n_ops", cfg.minOps, cfg.maxOps)
 	for i := 0; i < nOps && !e.Failed(); i++ {
-		switch tp.Weighted("op", cfg.updW, cfg.scrapeW, cfg.restartW, cfg.advW) {
+		switch tp.Weighted("op", cfg.updW, cfg.scrapeW, cfg.restartW, cfg.advW, cfg.overlapW) {
+		case 4: // a scrape of an assigned target is in flight while an update that keeps it is applied
+			var assigned []uint64
+			for _, h := range universe {
+				if _, ok := cur[h]; ok {
+					assigned = append(assigned, h)
+				}
+			}
+			if len(assigned) == 0 {
+				continue
+			}
+			h := assigned[tp.Choose("overlap_hash", len(assigned))]
+			job := curJob[h]
+			samples := GenSamples(tp, 1+tp.Choose("n_samples", 4))
+			hold := make(chan struct{})
+			n.Targets.Set(TargetHost(h), &sidecarsim.TargetSpec{Payload: Render(samples, false, false, false), Hold: hold})
+			at := time.Now()
+			done := make(chan struct{})
+			go func() { defer close(done); n.ScrapeRec(h, job) }()
+			synctest.Wait() // the scrape is parked at the target
+			// the update keeps h (possibly flipping its state) and may change the others
+			req := map[string][]*target.Target{}
+			for _, oh := range sidecarsim.SortedHashes(cur) { // never draw in map order
+				c := *cur[oh]
+				if oh == h {
+					if tp.Bool("overlap_flip", 1, 2) {
+						if c.TargetState == "" {
+							c.TargetState = "in_transfer"
+						} else {
+							c.TargetState = ""
+						}
+					}
+				} else if tp.Bool("overlap_drop_other", 1, 3) {
+					continue
+				}
+				req[curJob[oh]] = append(req[curJob[oh]], &c)
+			}
+			nc := map[uint64]*target.Target{}
+			nj := map[uint64]string{}
+			var desc []string
+			for _, j := range Jobs {
+				for _, t := range req[j] {
+					nc[t.Hash] = t
+					nj[t.Hash] = j
+					desc = append(desc, fmt.Sprintf("%s/%d:%s", j, t.Hash, t.TargetState))
+				}
+			}
+			sort.Strings(desc)
+			if err := n.SC.PostTargets(&shard.UpdateTargetsRequest{Targets: req}); err != nil {
+				e.Undecided("POST targets failed: %v", err)
+				close(hold)
+				<-done
+				return
+			}
+			cur, curJob = nc, nj
+			m.Update(req, time.Now())
+			close(hold)
+			<-done
+			total, kept, pm := Counts(samples, JobRelabel(job))
+			m.Scrape(h, at, true, total, kept, pm)
+			e.Logf("op %d scrape of %d in flight during update [%s]", i, h, strings.Join(desc, " "))
+			ops = append(ops, opRec{"scrape-overlapping-update", fmt.Sprintf("%d during [%s]", h, strings.Join(desc, " "))})
+			e.Probe("scrape_overlapped_update")
+			kinds["overlap"] = true
+			check("scrape")
 		case 0: // update
 			req := map[string][]*target.Target{}
 			mode := tp.Weighted("update_mode", 6, 1, 1)
